@@ -54,10 +54,17 @@ def _new_ctx(**kw):
     return ExecutionContext(**kw)
 
 
+REG_FAILURES = []      # registrations that raised (reported as violations by run(); never a checker crash)
+
+
 def _register_all(values):
     ctx = _new_ctx()
     for v in values:
-        ctx.register_global_constant(v)
+        try:
+            ctx.register_global_constant(v)
+        except Exception as x:  # noqa  registering a well-formed expression must not fail, whatever the order
+            if len(REG_FAILURES) < 50:
+                REG_FAILURES.append((values, v, f'{type(x).__name__}: {x}'))
     return ctx
 
 
@@ -140,7 +147,9 @@ def _layer_register(ck: Check):
         for e in E.trees(sz, internals, leaves, 4, memo):
             ctx = _new_ctx()
             first = prev if prev is not None and prev != e else {'prim': 'never'}
-            ctx.register_global_constant(copy.deepcopy(first))
+            ok0, x0 = _call(ctx.register_global_constant, copy.deepcopy(first))
+            if not ok0 and len(REG_FAILURES) < 50:
+                REG_FAILURES.append(([first], first, f'{type(x0).__name__}: {x0}'))
             ok, x = _call(ctx.register_global_constant, copy.deepcopy(e))
             want = {G.script_expr_hash(first): first, G.script_expr_hash(e): e}
             nargs = len(e.get('args', [])) if isinstance(e, dict) else -1
@@ -299,7 +308,7 @@ def replay(case):
     k = case['kind']
     if k == 'register':
         ctx = _new_ctx()
-        ctx.register_global_constant(copy.deepcopy(case['first']))
+        _call(ctx.register_global_constant, copy.deepcopy(case['first']))
         ok, x = _call(ctx.register_global_constant, copy.deepcopy(case['expr']))
         want = {G.script_expr_hash(case['first']): case['first'], G.script_expr_hash(case['expr']): case['expr']}
         if not ok:
@@ -339,6 +348,11 @@ def run(ck: Check) -> int:
     _layer_resolve(ck)
     _layer_iface(ck)
     ck.exhaustive = True
+    if REG_FAILURES:
+        values, v, err = REG_FAILURES[0]
+        ck.violation('register_global_constant::safety.no_exception(any registration order)',
+                     f'{len(REG_FAILURES)} registration(s) raised; first: registering {v!r} raised {err}',
+                     case=dict(kind='register', expr=v, first=values[0]), replay=REPLAY, wclass='registration raised')
     return ck.finish('exploration',
                      'R (bounded): result of the real resolve_global_constants / register_global_constant / '
                      'ContractInterface.from_micheline / context getters compared with the independent spec_expand and '
